@@ -526,4 +526,133 @@ theorem moveRun_pure (A : List Nat) (rules : List MRuleT) :
   simp only at this
   rw [← this]
 
+/-! ## what the joint-value loop does to the sums -/
+
+theorem uniform_crossSel (n : Nat) (fs : List MFactor) (h : ∀ f ∈ fs, GoodF n f) : Uniform n (crossSel fs) := by
+  cases fs with
+  | nil => intro e he; simp [crossSel] at he
+  | cons f fs =>
+    exact (crossSel_spec n f fs (h f (List.mem_cons_self ..)) (fun g hg => h g (List.mem_cons_of_mem _ hg))).1.2
+
+theorem uniform_NE (n : Nat) (A : List Nat) (m : Nat) (nb : List Nat) (v : Nat) (factors : List (GNode MFactor))
+    (hG : GoodG n factors) (j : Nat) : Uniform n (NE A m nb v factors j) := by
+  intro e he
+  simp only [NE, newEntries, List.mem_flatMap, List.mem_map] at he
+  obtain ⟨k, _, e', he', rfl⟩ := he
+  exact uniform_crossSel n _ (good_SelG n A _ factors hG) e' he'
+
+theorem filterNot_gAddToNode (v : Nat) (nb : List Nat) (id : Nat) (f : MFactor) (hv : nb.contains v = false) :
+    ∀ (G : List (GNode MFactor)),
+      (gAddToNode mcb nb id f G).filter (fun nd => !nd.keys.contains v)
+        = gAddToNode mcb nb id f (G.filter (fun nd => !nd.keys.contains v))
+  | [] => by simp only [gAddToNode, List.filter, hv, Bool.not_false]
+  | nd :: G => by
+    by_cases h : nd.keys = nb
+    · have hc : nd.keys.contains v = false := by rw [h]; exact hv
+      have h' : (nd.keys == nb) = true := by simpa using h
+      simp only [gAddToNode, h', if_true, List.filter, hc, hv, Bool.not_false]
+    · have h' : (nd.keys == nb) = false := by simpa using h
+      by_cases hc : nd.keys.contains v = true
+      · simp only [gAddToNode, h', Bool.false_eq_true, if_false, List.filter, hc, Bool.not_true,
+                   filterNot_gAddToNode v nb id f hv G]
+      · have hc' : nd.keys.contains v = false := by simpa using hc
+        simp only [gAddToNode, h', Bool.false_eq_true, if_false, List.filter, hc', Bool.not_false,
+                   filterNot_gAddToNode v nb id f hv G]
+
+theorem pLoop_succ (A : List Nat) (n : Nat) (nb : List Nat) (v : Nat) (factors : List (GNode MFactor)) (cnt j : Nat)
+    (p : List (GNode MFactor) × List MFactor) :
+    pLoop A n nb v factors (cnt+1) j p = pLoop A n nb v factors cnt (j+1)
+      (if (NE A n nb v factors j).isEmpty then p
+       else if nb.isEmpty then (p.1, p.2 ++ [NE A n nb v factors j])
+       else (gAddToNode mcb nb j (NE A n nb v factors j) p.1, p.2)) := rfl
+
+theorem pLoop_filterNot (A : List Nat) (n : Nat) (nb : List Nat) (v : Nat) (factors : List (GNode MFactor))
+    (hv : nb.contains v = false) : ∀ (cnt j : Nat) (G : List (GNode MFactor)) (Fs : List MFactor),
+      (pLoop A n nb v factors cnt j (G, Fs)).1.filter (fun nd => !nd.keys.contains v)
+        = (pLoop A n nb v factors cnt j (G.filter (fun nd => !nd.keys.contains v), Fs)).1 ∧
+      (pLoop A n nb v factors cnt j (G, Fs)).2 = (pLoop A n nb v factors cnt j (G.filter (fun nd => !nd.keys.contains v), Fs)).2
+  | 0, _, _, _ => ⟨rfl, rfl⟩
+  | cnt+1, j, G, Fs => by
+    rw [pLoop_succ, pLoop_succ]
+    by_cases he : (NE A n nb v factors j).isEmpty = true
+    · simp only [he, if_true]; exact pLoop_filterNot A n nb v factors hv cnt (j+1) G Fs
+    · have he' : (NE A n nb v factors j).isEmpty = false := by simpa using he
+      simp only [he', Bool.false_eq_true, if_false]
+      by_cases hn : nb.isEmpty = true
+      · simp only [hn, if_true]; exact pLoop_filterNot A n nb v factors hv cnt (j+1) G _
+      · have hn' : nb.isEmpty = false := by simpa using hn
+        simp only [hn', Bool.false_eq_true, if_false]
+        have := pLoop_filterNot A n nb v factors hv cnt (j+1) (gAddToNode mcb nb j (NE A n nb v factors j) G) Fs
+        rw [filterNot_gAddToNode v nb j _ hv G] at this
+        exact this
+
+/-- neighbours non-empty: the new rules go into the neighbours' node; for the joint action `a` only the rule created
+    for `a`'s own neighbour index takes part -/
+theorem pLoop_sums (n : Nat) (A a : List Nat) (m : Nat) (nb : List Nat) (v : Nat) (factors : List (GNode MFactor))
+    (hfac : GoodG n factors) (hne : nb.isEmpty = false) :
+    ∀ (cnt j0 : Nat) (G : List (GNode MFactor)) (Fs : List MFactor), GoodG n G →
+      (pLoop A m nb v factors cnt j0 (G, Fs)).2 = Fs ∧ GoodG n (pLoop A m nb v factors cnt j0 (G, Fs)).1 ∧
+      ∀ (R : List (List Vec)) (w : Vec),
+        w ∈ sums ((SelG A a (pLoop A m nb v factors cnt j0 (G, Fs)).1).map den ++ R)
+          ↔ w ∈ sums ((if j0 ≤ toIndexPartial nb A a ∧ toIndexPartial nb A a < j0 + cnt ∧
+                          (NE A m nb v factors (toIndexPartial nb A a)).isEmpty = false
+                       then [den (NE A m nb v factors (toIndexPartial nb A a))] else [])
+                      ++ ((SelG A a G).map den ++ R))
+  | 0, j0, G, Fs, hG => by
+    refine ⟨rfl, hG, ?_⟩
+    intro R w
+    have : ¬ (j0 ≤ toIndexPartial nb A a ∧ toIndexPartial nb A a < j0 + 0 ∧
+        (NE A m nb v factors (toIndexPartial nb A a)).isEmpty = false) := by omega
+    simp only [pLoop, this, if_false, List.nil_append]
+  | cnt+1, j0, G, Fs, hG => by
+    rw [pLoop_succ]
+    by_cases he : (NE A m nb v factors j0).isEmpty = true
+    · simp only [he, if_true]
+      obtain ⟨h1, h2, h3⟩ := pLoop_sums n A a m nb v factors hfac hne cnt (j0+1) G Fs hG
+      refine ⟨h1, h2, ?_⟩
+      intro R w
+      rw [h3 R w]
+      by_cases c : j0 + 1 ≤ toIndexPartial nb A a ∧ toIndexPartial nb A a < j0 + 1 + cnt ∧
+          (NE A m nb v factors (toIndexPartial nb A a)).isEmpty = false
+      · have c' : j0 ≤ toIndexPartial nb A a ∧ toIndexPartial nb A a < j0 + (cnt + 1) ∧
+            (NE A m nb v factors (toIndexPartial nb A a)).isEmpty = false := ⟨by omega, by omega, c.2.2⟩
+        simp only [c, c', and_self, if_true]
+      · have c' : ¬ (j0 ≤ toIndexPartial nb A a ∧ toIndexPartial nb A a < j0 + (cnt + 1) ∧
+            (NE A m nb v factors (toIndexPartial nb A a)).isEmpty = false) := by
+          rintro ⟨c1, c2, c3⟩
+          by_cases e : toIndexPartial nb A a = j0
+          · rw [e, he] at c3; exact absurd c3 (by simp)
+          · exact c ⟨by omega, by omega, c3⟩
+        simp only [c, c', if_false]
+    · have he' : (NE A m nb v factors j0).isEmpty = false := by simpa using he
+      simp only [he', Bool.false_eq_true, if_false, hne]
+      have hgood : GoodF n (NE A m nb v factors j0) :=
+        ⟨fun h => by rw [h] at he'; simp at he', uniform_NE n A m nb v factors hfac j0⟩
+      have hG' := good_gAddToNode n nb j0 _ hgood G hG
+      obtain ⟨h1, h2, h3⟩ := pLoop_sums n A a m nb v factors hfac hne cnt (j0+1) _ Fs hG'
+      refine ⟨h1, h2, ?_⟩
+      intro R w
+      rw [h3 R w]
+      have hadd := sums_gAddToNode n A a nb j0 _ hgood G hG
+      by_cases e : toIndexPartial nb A a = j0
+      · have hw := hadd R w
+        rw [e] at hw ⊢
+        have c : ¬ (j0 + 1 ≤ j0 ∧ j0 < j0 + 1 + cnt ∧ (NE A m nb v factors j0).isEmpty = false) := by omega
+        have c' : j0 ≤ j0 ∧ j0 < j0 + (cnt + 1) ∧ (NE A m nb v factors j0).isEmpty = false := ⟨le_refl _, by omega, he'⟩
+        rw [if_neg c, if_pos c', List.nil_append, hw, if_pos rfl]
+      · have hnot : ¬ (toIndexPartial nb A a = j0) := e
+        by_cases c : j0 + 1 ≤ toIndexPartial nb A a ∧ toIndexPartial nb A a < j0 + 1 + cnt ∧
+            (NE A m nb v factors (toIndexPartial nb A a)).isEmpty = false
+        · have c' : j0 ≤ toIndexPartial nb A a ∧ toIndexPartial nb A a < j0 + (cnt + 1) ∧
+              (NE A m nb v factors (toIndexPartial nb A a)).isEmpty = false := ⟨by omega, by omega, c.2.2⟩
+          simp only [c, c', and_self, if_true]
+          apply mem_sums_congr_right
+          intro u
+          rw [hadd R u]; simp only [hnot, if_false, List.nil_append]
+        · have c' : ¬ (j0 ≤ toIndexPartial nb A a ∧ toIndexPartial nb A a < j0 + (cnt + 1) ∧
+              (NE A m nb v factors (toIndexPartial nb A a)).isEmpty = false) := by
+            rintro ⟨c1, c2, c3⟩; exact c ⟨by omega, by omega, c3⟩
+          simp only [c, c', if_false, List.nil_append]
+          rw [hadd R w]; simp only [hnot, if_false, List.nil_append]
+
 end AITB.VE
